@@ -406,12 +406,16 @@ theorem stats_add_fields (a b : Stats) :
 
 /-! ## mode normalisation -/
 
-/-- `-v --count-matches` is `--count`; `-o --count` is `--count-matches` (and `-v` wins when both apply to
-`--count-matches`). -/
+/-- `-v --count-matches` is `--count`; `-o --count` is `--count-matches`; under `-v` every count mode is `--count`
+(also `-c -o -v`, finding F33 repaired by 221fc03); normalising twice changes nothing. -/
 theorem normalize_modes :
     normalizeMode .countMatches true false = .count ∧ normalizeMode .countMatches true true = .count ∧
-    normalizeMode .count false true = .countMatches ∧ normalizeMode .count true true = .countMatches ∧
-    normalizeMode .count false false = .count ∧ normalizeMode .countMatches false false = .countMatches := by
-  decide
+    normalizeMode .count false true = .countMatches ∧ normalizeMode .count true true = .count ∧
+    normalizeMode .count false false = .count ∧ normalizeMode .countMatches false false = .countMatches ∧
+    (∀ m inv only, normalizeMode (normalizeMode m inv only) inv only = normalizeMode m inv only) ∧
+    (∀ m only, normalizeMode m true only ≠ .countMatches) := by
+  refine ⟨by decide, by decide, by decide, by decide, by decide, by decide, ?_, ?_⟩
+  · intro m inv only; cases m <;> cases inv <;> cases only <;> rfl
+  · intro m only; cases m <;> cases only <;> decide
 
 end RgVerif.Props.C10
